@@ -1,4 +1,4 @@
-"""C10: integer + - * negation ++/-- are lane-wise two's-complement."""
+"""C10: float + - * /, sqrt and unary minus are the IEEE operations on each lane."""
 import common
 import runner
 
@@ -23,8 +23,7 @@ def run(tier, a=None):
     cfgs = select_cfgs(tier, a)
     runner.run_families(res, cfgs, ["floatarith"], type_filter(a))
     res.trusted = ["clang 14 front end and -O2 pipeline preserve the meaning of UB-free executions",
-                   "LLVM LangRef: add/sub/mul without nsw/nuw are arithmetic modulo 2^n per lane"]
-    return common.finish(res, explanation="every integer vector type x configuration x "
-                         "{+,-,*,unary -,++,--, compound forms}: optimised IR summarised into a "
-                         "closed form and compared with add/sub/mul modulo 2^bits on the same lane",
+                   "LLVM LangRef semantics of the IR instructions; Intel SDM semantics of the x86 intrinsics as modelled in spec/isa.py",
+                   "the term normaliser, the exact IEEE evaluator (lib/fpeval.py) and the abstract interpreter (lib/absint.py, self-tested against the concrete evaluator)"]
+    return common.finish(res, explanation='every floating-point vector type x configuration x {+, -, *, /, compound forms, unary -, sqrt}: optimised IR summarised into a closed form and required to be exactly one IEEE operation (fadd/fsub/fmul/fdiv/llvm.sqrt, sign-bit xor for unary minus) of the current rounding mode on the same lane; forms with a static rounding override or an emulation are evaluated exactly under all four rounding modes against the IEEE operation',
                          write_floor=getattr(a, "write_floor", False))
